@@ -127,6 +127,49 @@ def gen_case(rng, maxops, nmax, base):
     return 'B=%d;%s|%s' % (base, ','.join(objs), ' '.join(ops))
 
 
+def gen_grow(rng, n, base, brief=False):
+    """growth past several primes and shrink back: n objects, most of them roots or kept on the
+    stack, allocated in a row with a few deletions and queries in between, then deleted in random
+    order with collections in between (Resize_More / Resize_Less at every threshold)"""
+    style = rng.choice(['lcm', 'lcmbig', 'dense', 'mixed', 'endcluster'])
+    offs = gen_offsets(rng, n, style)
+    n = len(offs)
+    ids = list(range(n))
+    pown = rng.choice([0, 0, 0.05, 0.2])
+    objs = []
+    for k in ids:
+        own = [rng.choice(ids) for _ in range(rng.choice([1, 1, 2]))] if rng.random() < pown else []
+        objs.append('%d:%d%s' % (k, offs[k], (':' + '.'.join(map(str, own))) if own else ''))
+    proot = rng.choice([0.3, 0.6, 1.0])
+    ops = ['Q'] if brief else []
+    alive, words = [], []
+    order = ids[:]
+    rng.shuffle(order)
+    dead = set()
+    for k in order:
+        words = (words + [k])[-90:]
+        if rng.random() < 0.5 or len(words) < 3:
+            ops.append('k' + '.'.join(map(str, words)))
+        ops.append(('A%d' if rng.random() < proot else 'a%d') % k)
+        alive.append(k)
+        r = rng.random()
+        if r < 0.05:
+            ops.append('m%d' % rng.choice(ids))
+        elif r < 0.08 and len(alive) > 4:
+            v = alive.pop(rng.randrange(len(alive))); ops.append('d%d' % v); dead.add(v)
+            words = [w for w in words if w != v]
+    rng.shuffle(alive)
+    cnt = 0
+    for v in alive:
+        ops.append('d%d' % v); cnt += 1
+        if rng.random() < 0.03:
+            ops.append('k'); ops.append('c')
+        if rng.random() < 0.05:
+            ops.append('m%d' % rng.choice(ids))
+    ops.append('k'); ops.append('c')
+    return 'B=%d;%s|%s' % (base, ','.join(objs), ' '.join(ops))
+
+
 def parse_case(case):
     hd, ops = case.split('|', 1)
     b, objs = hd.split(';', 1)
@@ -168,6 +211,9 @@ def admissible(case):
             running = False
         elif c == 'T':
             running = True
+        elif c in 'czQ':
+            if len(t) != 1:
+                return False
         elif c == 'm':
             if int(t[1:]) not in off:
                 return False
@@ -232,6 +278,19 @@ def oracle(case, impl, spec):
         elif out not in ('ok', 'new'):
             return 'step %d (%s): outcome %s' % (n, op, out)
         nslots = int(nslots)
+        if slots.startswith('#'):
+            # brief dump (big cases): slot text only as a hash (compared with the model); the oracle
+            # still checks the count and mem() for the sampled objects
+            if int(nitems) != len(want):
+                return 'step %d (%s): nitems %s, %d objects are registered' % (n, op, nitems, len(want))
+            sub = [k for k in ids if (k + n) % 8 == 0]
+            bits = mem.replace('HOOKLOST', '')
+            if len(bits) != len(sub):
+                return 'step %d (%s): %d mem answers for %d sampled objects' % (n, op, len(bits), len(sub))
+            for j, k in enumerate(sub):
+                if (bits[j] == '1') != (k in want):
+                    return 'step %d (%s): mem(gc, object %d) = %s but it is %sregistered' % (n, op, k, bits[j], '' if k in want else 'not ')
+            continue
         ent = [s.split(':') for s in slots.split(',')] if slots else []
         if len(ent) != nslots:
             return 'step %d: %d slots dumped, nslots %d' % (n, len(ent), nslots)
@@ -350,12 +409,12 @@ def run(ctx):
     quick = ctx.tier == 'quick'
     ctx.cov['rule'] = (
         'seeded histories of alloc / alloc_root / alloc_raw / del / del_raw / mem / forced collection (scripted stack words) / '
-        'sweep-only / stop / start over 2-%d objects whose addresses 8*(B+off) are scripted: off = multiples of 5*11*23*53*101 (and *197, *389) '
+        'sweep-only / stop / start over 2-%d objects (a few growth cases up to %d) whose addresses 8*(B+off) are scripted: off = multiples of 5*11*23*53*101 (and *197, *389) '
         'so that all homes coincide modulo every registry size, homes at the last slots (wrap-around), two homes, dense, small, mixed; '
         'objects own other objects (their destructor issues del: removals during a sweep or during another removal, cycles allowed); '
         'threshold collections fire by themselves (the first allocation already does); generator rule: an address is re-allocated only after a '
         'top-level del/del_raw of it. A case is non-trivial when an entry sits away from its home slot, or a destructor issued a removal, or the '
-        'registry shrank by rehashing; distinct = distinct implementation transcripts' % (60 if quick else 420))
+        'registry shrank by rehashing; distinct = distinct implementation transcripts' % (60 if quick else 420, 130 if quick else 1500))
     ctx.assumptions += [
         'C text tied by correspondence only: extracted Gallina model vs src/GC.c of the working tree (white-box include), registry dumped after every step',
         'the conservative stack scan GC_Mark_Stack is replaced in the harness by a scripted word list handed to the real GC_Mark_Item (no source edit); '
@@ -403,7 +462,7 @@ def run(ctx):
         d.report()
         return
     d.feed(corpus(base), 'corpus')
-    n = 1200 if quick else 100000
+    n = 2400 if quick else 100000
     nmax = 60 if quick else 420
     chunk = 1000
     done = 0
@@ -414,7 +473,10 @@ def run(ctx):
             j = done + i
             if j % 3 == 0:
                 cases.append(gen_case(ctx.rng, 14, 6, base))
-            elif not quick and j % 50 == 1:
+            elif j % 40 == 1:
+                # growth past 11, 23, 53, 101 (197, 389, 683 in the thorough tier) slots and back
+                cases.append(gen_grow(ctx.rng, ctx.rng.choice([30, 60, 100, 130] if quick else [60, 130, 200, 400, 650]), base))
+            elif not quick and j % 50 == 2:
                 cases.append(gen_case(ctx.rng, 1500, nmax, base))
             else:
                 cases.append(gen_case(ctx.rng, 150, nmax if j % 7 else 20, base))
@@ -422,6 +484,9 @@ def run(ctx):
         done += m
         if d.oracle_fail:
             break
+    if not quick and not d.oracle_fail:
+        # past 1259 and 2417 slots and back; slot arrays compared by hash (brief dumps)
+        d.feed([gen_grow(ctx.rng, nbig, base, brief=True) for nbig in (1200, 1500)])
 
     def extra(dd):
         dd.feed([gen_case(ctx.rng, 60, 20, base) for _ in range(10 * min(n, 2000))])
